@@ -61,13 +61,28 @@ def run(eng, rep, tier):
                       site=site_of(prog, f_, f_.node))
     f2 = prog.method("PDA", "intersection")
     s2 = interp.run_entry(f2, PDA)
-    starts = [ev for ev, _ in s2.walk() if ev.kind == "subscript" and ev.args and ev.args[0].has_const() and
-              ev.recv is not None and START(OTHER) in deps_of(ev.recv)]
-    okd = bool(starts) and all(_det_facts(ev, s2) for ev in starts)
-    ob.decide("R3c", "C11.1", f2, "single-start-pick", okd,
-              "the automaton's start state is picked from a set known to be a singleton (deterministic or determinised)",
-              "the start state of the automaton is picked from a start set that may have several elements", s2,
-              site=(starts[0].site.to_json() if starts else site_of(prog, f2, f2.node)))
+    from ..av import has_qual
+    for f_, s_, label in ((fi, summ, "CFG"), (f2, s2, "PDA")):
+        picks = [ev for ev, _ in s_.walk() if ev.kind == "subscript" and ev.args and ev.args[0].has_const() and
+                 ev.recv is not None and START(OTHER) in deps_of(ev.recv)]
+        src = [ev for ev, _ in s_.walk() if ev.kind == "call" and ev.callee.endswith(".start_states") and
+               ev.recv is not None and OTHER in ev.recv.alias]
+        okd = bool(picks) and bool(src) and all(has_qual(ev.recv, "DET") for ev in src)
+        bad = next((ev for ev in src if not has_qual(ev.recv, "DET")), None)
+        ob.decide("R3c", "C11.1", f_, "single-start-pick:" + label, okd,
+                  "the automaton whose start set is indexed is deterministic on every path (is_deterministic() was true, or "
+                  "it was determinised)",
+                  "`list(other.start_states)[0]` picks *the* start state of an automaton that can have several start states "
+                  "here (class %s, not known to be deterministic): words accepted from the other start states are lost"
+                  % (sorted(x.rsplit(".", 1)[-1] for x in (bad.recv.types or [])) if bad else "?"), s_,
+                  site=(picks[0].site.to_json() if picks else site_of(prog, f_, f_.node)))
+    # the seeded start pair is tested for finality like every other pair
+    fins2 = [ev for ev, _ in calls(s2, "add_final_state", own=True)]
+    ob.decide("R1", "C11.3", f2, "start-pair-tested-for-finality",
+              bool(fins2) and _start_pair_tested(s2),
+              "the finality test is applied to the popped pair, which includes the start pair",
+              "the start pair (PDA start state, automaton start state) is never tested for finality: words accepted in "
+              "it, the empty word included, are lost", s2, site=site_of(prog, f2, f2.node))
 
     # -------------------------------------------------------------- C11.2 sibling dispatch
     for cname in ("CFG", "PDA", "IndexedGrammar"):
@@ -125,9 +140,8 @@ def run(eng, rep, tier):
               bool(fins) and all(("self", ("_final_states",)) in ev.ctrl and FINAL(OTHER) in ev.ctrl for ev in fins),
               "a product state is final under a test on both FINAL sets",
               "finality of the product PDA does not depend on both operands", s2, site=site_of(prog, f2, f2.node))
-    okw, why, _ = is_worklist_closure(f2.node)
-    ob.decide("R10a", "C11.3", f2, "pair-worklist", okw, "reachable pairs by a visited-set worklist",
-              "PDA.intersection is not a closure worklist: " + why, None, site=site_of(prog, f2, f2.node))
+    ob.worklist("C11.3", f2, "pair-worklist", "reachable pairs by a visited-set worklist",
+                "PDA.intersection is not a closure worklist")
     keep = False
     for sub in ast.walk(f2.node):
         if isinstance(sub, ast.If) and "Epsilon()" in ast.unparse(sub.test) and "==" in ast.unparse(sub.test):
@@ -152,6 +166,21 @@ def run(eng, rep, tier):
     names.check(eng, rep, "C11")
     rep.stats.update(eng.stats())
     rep.floor = 18
+
+
+def _start_pair_tested(s2):
+    """Some finality test (membership in a FINAL set) is applied to a value that may be the seeded start state."""
+    from .flow import may_be_element_of
+    ok_self = ok_other = False
+    for ev in s2.events:
+        if ev.kind != "member" or ev.recv is None or not ev.args:
+            continue
+        a = ev.args[0]
+        if ("self", ("_final_states",)) in ev.recv.alias and ("self", ("_start_state",)) in a.alias:
+            ok_self = True
+        if FINAL(OTHER) in ev.recv.alias and may_be_element_of(a, START(OTHER)):
+            ok_other = True
+    return ok_self and ok_other
 
 
 def _xc(ev):
